@@ -130,6 +130,7 @@ def run_async_fn(facts, co, special, world):
     it.poll_hook = world.poll
     it.unknown_call = actor_abs.lenient_unknown
     it.opaque_fields = True
+    it.elastic_take = True      # (round 8, C01h: the difference capped at a constant number of entries per cycle)
     n = max(ups) + 1 if ups else 0
     cells = []
     for i in range(n):
@@ -257,7 +258,10 @@ def check_repair(ctx, facts, rule):
     ctx.ob(rule, 'diff-entries-kept', ok1, site_,
            'the difference the local actor computed is carried into KeyspaceDiff entry by entry: each id with its own stamp, modifications and removals in their own lists' if ok1 else
            'the actor answers modified=%s removed=%s but KeyspaceDiff carries modified=%s removed=%s: a removal applied with another stamp than the delete\'s own loses to '
-           '(or wrongly beats) a concurrent write of the same document, and an entry in the wrong list is fetched instead of deleted' % (MOD, REM, got_mod, got_rem))
+           '(or wrongly beats) a concurrent write of the same document, and an entry in the wrong list is fetched instead of deleted' % (MOD, REM, got_mod, got_rem)
+           + ''.join(' — the list is CAPPED at %d entries (the two shown entries stand for a difference of any size): the exchange still records the peer\'s change stamp '
+                     'as synced, so whatever is beyond the cap is never asked for again until the peer changes the keyspace' % x[1]
+                     for x in it.trace if isinstance(x, tuple) and x[0] == 'take-cut'))
     ok2 = got_lu is not None and got_lu[0] == 'ts' and got_lu[1] == 'lu'
     ctx.ob(rule, 'peer-change-stamp', ok2, site_, 'KeyspaceDiff.last_updated is the change stamp the peer reported with the state' if ok2 else
            'KeyspaceDiff.last_updated is %s, not the stamp the peer reported: the tracker records a stamp the peer never had' % (got_lu,))
